@@ -8,6 +8,7 @@
   finite oriented tet complexes and sign functions.
 -/
 import LibfiveProofs.Marching
+import LibfiveProofs.MarchingManifold
 import LibfiveProofs.MarchingTables
 import LibfiveProofs.Pool
 
@@ -96,28 +97,27 @@ theorem marching_manifold_per_tet (s : Vid → Bool) (t : Tet) (h : t.distinct) 
     (dirEdges (marchTet s t)).count e ≤ 1 :=
   List.nodup_iff_count_le_one.mp (marchTet_edges_nodup s t h) e
 
-/- **marching_manifold — cross-tet part stated, NOT proved.**
-     theorem marching_manifold (s : Vid → Bool) (ts : List Tet) (H : HypH s (allFaces ts))
-         (hd : ∀ t ∈ ts, t.distinct) (hv : TetSetsDistinct ts) (e : Edge (SV Vid)) :
-         (dirEdges (marchTets s ts)).count e ≤ 1
-   The two hypotheses beyond (H) are exactly what is needed:
-   * `hd` (four distinct vertices per tet): otherwise a tet edge `(a, a)` or two equal surface
-     vertices make self-loops, which every count sees twice;
-   * `hv` (`TetSetsDistinct`: no two tets with the same vertex set): (H) alone allows two tets glued
-     along all four faces (the two-tet triangulation of S³); for a 2-2 mask both emit a quad split by
-     a diagonal, and the diagonal (an interior side, spanning all four vertices) can then occur twice
-     in the same direction.
-   Proof sketch of the missing part, given `marching_manifold_per_tet`, `tet_face_local` and
-   `tet_boundary_is_face_segments`: (1) a side whose two tet edges span four distinct vertex ids is
-   interior to the tet with exactly that vertex set, which is unique by `hv`; (2) a side spanning
-   three ids `{a,b,c}` lies on the face `{a,b,c}` of every tet emitting it; by (H) that face has exactly
-   two incidences, with opposite parity, emitting `seg` and its reverse (`seg_reverse`), and
-   `seg ≠ rev seg` because the two surface vertices differ (`hd`); hence one incidence per direction.
-   Step (2) needs "the sorted face triple is determined by the side" (permutation invariance of
-   `canon`), which is not formalised.
-   All three hypotheses are CHECKED on every dumped complex by the driver (`H`, tet-repeats-vertex,
-   `V <id> ok|FAIL`), and the conclusion is checked on every real simplex / hybrid mesh by the oracle
-   of tools/checks/c03.py (edge-used-more-than-once-per-direction). -/
+/-- **marching_manifold (edge-manifold clause for the simplex / hybrid meshers).**  Under (H), if
+    every tet has four distinct vertices (`hd`) and no two tets have the same vertex set (`hv`),
+    every directed side is emitted AT MOST ONCE over the whole complex — together with
+    `marching_closed`, each undirected edge is used exactly once per direction or not at all.
+    The two hypotheses beyond (H) are exactly what is needed:
+    * `hd`: otherwise a tet edge `(a, a)` or two equal surface vertices make self-loops, which
+      every count sees twice;
+    * `hv`: (H) alone allows two tets glued along all four faces (the two-tet triangulation of
+      S³); for a 2-2 mask both emit a quad split by a diagonal, and the diagonal (an interior
+      side, spanning all four vertices) can then occur twice in the same direction.
+    Proof (LibfiveProofs/MarchingManifold.lean): a side spanning four vertex ids is interior to
+    the tet with exactly that vertex set (unique by `hv`, and a tet emits it at most once by the
+    complete-table lemma); a side spanning three ids lies on the face with that canonical key,
+    which by (H) has exactly two incidences of opposite parity emitting `seg` and its reverse.
+    All three hypotheses are CHECKED on every dumped complex by the driver (`H`, tet-repeats-vertex,
+    `V <id> ok|FAIL`), and the conclusion is checked on every real simplex / hybrid mesh by the
+    oracle of tools/checks/c03.py. -/
+theorem marching_manifold (s : Vid → Bool) (ts : List Tet) (H : HypH s (allFaces ts))
+    (hd : ∀ t ∈ ts, t.distinct) (hv : TetSetsDistinct ts) (e : Edge (SV Vid)) :
+    (dirEdges (marchTets s ts)).count e ≤ 1 :=
+  manifold_count s ts H hd hv e
 
 /-- **per-tet stage.**  The boundary of the triangles of ONE tet is the sum of the segments of its
     four oriented faces (for any vertex ids, distinct or not, and any antisymmetric weight). -/
